@@ -24,6 +24,8 @@ STRENGTHENED = {
     "C05d": "steady histories now hand the solver one and the same array object from every callback call (`lambda t, x: L`, the commonest user callable) and a fixed position likewise; every array handed out by a callback, the parameter dictionary, the starting deformation gradient and the mineral list are audited for in-place modification after every update (`hist.update`, `hist.update_bulk`)",
     "C09d": "the history oracle now drives every accepted regime (min/max viscosity, matrix diffusion as well as the dislocation regimes), set on the mineral or switched per update through the `get_regime` callback; sub-threshold grains at the start of such an update must still be floored",
     "C13d": "new deformation-gradient families `inf` (R.V.diag(1+10^u d).V^T, u in [-10,-2]) and `tinyshear`, simple shear down to 1e-9; tolerances are now the measured conditioning of the decomposition (1e-12 S0 for the stretch, 1e-13/separation for the axis, calibrated on 200000 random gradients) instead of a flat 1e-9 with small strains skipped",
+    "C15d": "new oracle `generated_shapes`: shape pairs come from a grammar (ranks 0..5 / 0..3, dimensions biased towards 3 so that snapshot and grain counts collide with the trailing 3x3, fractions optionally tied to the leading dimensions of the orientations) with the consistency rule as oracle in both directions (consistent accepted with the right output shapes, everything else ValueError)",
+    "C17d": "new fault `snapshot_size`: any snapshot index (first or later) x fractions / orientations / both / orientations without the grain axis x sizes 1 (broadcastable), n-1, n+1, 2n, 0 - this also exposed a genuine defect in `Mineral.save` (fix: 9de32db)",
     "C20": "new differential part of `point_density`: raw estimates are rebuilt from the documented counting grid with pydrex's kernel functions, normalised, clipped and compared (1e-9)",
 }
 
